@@ -25,6 +25,7 @@ OB1 = "C20.referents-mode sound ordered over-approximation (symbolic f_lasti, co
 OB1B = "C20.referents mode on REAL suspended frames with their real origin (symbolic suspension index)"
 OB2 = "C20.trickery failure only warns (symbolic fault index, real frames)"
 OB3 = "C20.set_trickery_enabled sequences"
+OB4 = "C20.one manager object entered more than once (one entry per active with block, both modes)"
 FUNCTIONS = ["stackscope._lowlevel._contexts_active_by_referents", "stackscope._lowlevel.contexts_active_in_frame",
              "stackscope._lowlevel.currently_exiting_context", "stackscope._lowlevel.set_trickery_enabled",
              "stackscope._lowlevel._check_trickery_available"]
@@ -490,6 +491,90 @@ def _shard3(sh: Dict[str, Any]) -> Dict[str, Any]:
     return par.shard_result(eng, shard="switch", cex=cex, samples=samples)
 
 
+# ------------------------------------------------------------------- 4: one manager object entered more than once
+class _Reentrant:
+    """A reentrant manager supporting both protocols; `with m: with m:` pushes one bound exit method per block."""
+
+    def __init__(self, name: str) -> None:
+        self.name = name
+
+    def __repr__(self) -> str:
+        return f"<R {self.name}>"
+
+    def __enter__(self) -> Any:
+        return self
+
+    def __exit__(self, *a: Any) -> None:
+        return None
+
+    async def __aenter__(self) -> Any:
+        return self
+
+    async def __aexit__(self, *a: Any) -> None:
+        return None
+
+
+def reentrant_case(picks: List[int], asyncs: List[bool], mode: Optional[bool]) -> Optional[str]:
+    """with M[picks[0]]: (async) with M[picks[1]]: ... suspended in the innermost body; the same object may recur."""
+    import types as _types
+
+    from stackscope import _lowlevel
+
+    M = [_Reentrant("a"), _Reentrant("b")]
+    is_coro = any(asyncs)
+    lines = ["async def prog(M, T):" if is_coro else "def prog(M, T):"]
+    for j, (pk, a) in enumerate(zip(picks, asyncs)):
+        lines.append("    " * (j + 1) + ("async with " if a else "with ") + f"M[{pk}]:")
+    lines.append("    " * (len(picks) + 1) + ("await T()" if is_coro else "yield 1"))
+    ns: Dict[str, Any] = {}
+    exec(compile("\n".join(lines) + "\n", "<reentrant>", "exec"), ns)
+
+    @_types.coroutine
+    def trap() -> Any:
+        yield "trap"
+
+    obj = ns["prog"](M, trap)
+    obj.send(None)
+    frame = obj.cr_frame if is_coro else obj.gi_frame
+    _lowlevel.set_trickery_enabled(mode)
+    try:
+        with warnings.catch_warnings(record=True) as w:
+            warnings.simplefilter("always")
+            got = [(c.obj, c.is_async, c.is_exiting) for c in _lowlevel.contexts_active_in_frame(frame, obj, None)]
+        nw = [str(x.message)[:160] for x in w if issubclass(x.category, _lowlevel.InspectionWarning)]
+    finally:
+        _lowlevel.set_trickery_enabled(None)
+        obj.close()
+    entered = [(M[pk], a) for pk, a in zip(picks, asyncs)]
+    if nw:
+        return f"InspectionWarning: {nw[0]}"
+    if mode is False:
+        return judge_referents(got, entered, None, [])
+    if [(id(a), b, c) for a, b, c in got] != [(id(m), a, False) for m, a in entered]:
+        return f"trickery mode: {got} != {entered}"
+    return None
+
+
+def _shard4(sh: Dict[str, Any]) -> Dict[str, Any]:
+    cex: List[Dict[str, Any]] = []
+    samples: List[Any] = []
+
+    def harness(e: Engine) -> None:
+        n = 1 + e.choice("nesting", sh["maxdepth"])
+        picks = [e.choice(f"manager{j}", 2) for j in range(n)]
+        asyncs = [bool(e.flag(f"async{j}")) for j in range(n)]
+        mode = [False, None][e.choice("trickery", 2)]
+        why = reentrant_case(picks, asyncs, mode)
+        if len(samples) < 1 and n > 1:
+            samples.append({"managers": picks, "async": asyncs, "trickery": mode})
+        if why and len(cex) < 3:
+            cex.append({"reentrant": True, "picks": picks, "asyncs": asyncs, "mode": mode, "why": why})
+
+    eng = Engine(max_seconds=300)
+    eng.explore(harness)
+    return par.shard_result(eng, shard="reentrant", cex=cex, samples=samples)
+
+
 def run(rep: Any, tier: str, seed: int) -> None:
     import z3
     from harness.c01 import chunks
@@ -512,8 +597,10 @@ def run(rep: Any, tier: str, seed: int) -> None:
     jobs += [("_shard1b", {"prog": i}) for i in range(len(step_programs()))]
     jobs += [("_shard2", {"prog": i}) for i in range(len(FAULT_PROGS))]
     jobs += [("_shard3", {"maxlen": 3 if tier == "quick" else 4})]
+    jobs += [("_shard4", {"maxdepth": 3 if tier == "quick" else 4})]
+    rep.bounds["reentrant managers"] = f"1..{3 if tier == 'quick' else 4} nested with / async with blocks over two manager objects (any repetition), referents mode and default mode"
     res = par.run_mixed("harness.c20", jobs)
-    for fn, ob in (("_shard1", OB1), ("_shard1b", OB1B), ("_shard2", OB2), ("_shard3", OB3)):
+    for fn, ob in (("_shard1", OB1), ("_shard1b", OB1B), ("_shard2", OB2), ("_shard3", OB3), ("_shard4", OB4)):
         for c in par.fold(rep, ob, [r for f, r in res if f == fn]):
             rep.counterexample(ob, c, c["why"])
 
@@ -532,6 +619,9 @@ def replay(case: Dict[str, Any]) -> Dict[str, Any]:
         return {"status": "reproduces" if not r["ok"] else "not-reproduced", "detail": r}
     if case.get("switch"):
         why = switch_case(case["seq"], case["thread"])
+        return {"status": "reproduces" if why else "not-reproduced", "detail": why}
+    if case.get("reentrant"):
+        why = reentrant_case(case["picks"], case["asyncs"], case["mode"])
         return {"status": "reproduces" if why else "not-reproduced", "detail": why}
     from harness.c01 import analyse_program
     from vlib.bc import dyn
